@@ -245,6 +245,27 @@ def recover_and_finish(ctx, c, metrics, root, full, case, second=None, window="o
         ctx.violation(dict(sig0, api="history", symptom="final-history-differs"), case,
                       {"expected": want, "observed": final})
         return False
+    # after recovery and completion: last and best loadable again; with keep-everything every recorded epoch
+    nrec = len(full["csvs"])
+    if full["lists"] and c["keep_last_and_best_only"]:
+        extra = sorted(set(T.listing(root)) - set(full["lists"][-1]))
+        if extra:  # reported, not judged: the 'exactly those two' clause speaks of uninterrupted updates
+            ctx.count("recovered_runs_with_stranded_files")
+            ctx.count("stranded:" + ("temp" if all("tmp" in f for f in extra) else "old-checkpoint"))
+    if nrec and not (c["fmt"] == "fixed"):
+        want_epochs = range(1, nrec + 1) if not c["keep_last_and_best_only"] else sorted(
+            {ctrl.get_last_epoch(), ctrl.get_best_epoch(bit)})
+        for x in want_epochs:
+            m3, o3 = T.new_model_optim(cfg)
+            try:
+                ctrl.load_model_and_optimizer_for_epoch(m3, o3, x)
+                got = T.read_stamp(m3, o3)
+            except Exception as ex:  # noqa: BLE001
+                got = f"{type(ex).__name__}: {str(ex)[-120:]}"
+            if got != (float(x), 100.0 + x):
+                ctx.violation(dict(sig0, api="load", symptom="recorded-epoch-not-loadable-after-recovery"), case,
+                              {"epoch": x, "got": got, "dir": T.listing(root)})
+                return False
     return True
 
 
